@@ -203,6 +203,11 @@ class _Conv:
     # -- types
     def ctype(self, base, declarator=None) -> CType:
         tn = type(base).__name__
+        # `const T` / `volatile T`: the qualifier changes neither width nor rank
+        while tn in ("CConstTypeNode", "CConstOrVolatileTypeNode", "CQualifierTypeNode") \
+                and getattr(base, "base_type", None) is not None:
+            base = base.base_type
+            tn = type(base).__name__
         ptr = 0
         d = declarator
         while d is not None and type(d).__name__ == "CPtrDeclaratorNode":
